@@ -78,3 +78,30 @@ func VerifCSSDeclTotal(n int) {
 	vOutputBool("err", err != nil)
 	vReach("end")
 }
+
+var verifKeywordProps = []string{"background", "font", "margin", "border", "flex", "transition", "outline", "box-shadow", "text-decoration", "grid-template-areas", "font-weight", "background-position", "background-repeat", "background-size", "white-space", "list-style"}
+var verifKeywordWords = []string{"padding-box", "border-box", "red", "none", "repeat", "no-repeat", "0", "left", "url(x)", ",", "/", "1px", "bold", "normal", "auto", "#000", "transparent", "solid", "0%", "center", "inherit", "\"s\"", "var(--x)", "!important"}
+
+// VerifCSSKeywordTotal (C10): a{P:W1 .. Wn} with P from 16 shorthand properties whose values are rewritten keyword by
+// keyword and Wi from 24 keywords / values / separators: no panic whatever the sequence (repeated keywords, keywords the
+// grammar does not allow at that place).
+func VerifCSSKeywordTotal(n int) {
+	prop := verifKeywordProps[vChoice("prop", len(verifKeywordProps))]
+	in := append(append([]byte("a{"), prop...), ':')
+	for i := 0; i < n; i++ {
+		if i > 0 {
+			in = append(in, ' ')
+		}
+		nw := len(verifKeywordWords)
+		if n >= 3 {
+			nw = 12 // the first 12 words only: keeps the choice space at 16 x 12^n
+		}
+		in = append(in, verifKeywordWords[vChoice("w"+string(rune('0'+i)), nw)]...)
+	}
+	in = append(in, '}')
+	w := &vWriter{}
+	err := (&Minifier{}).Minify(minify.New(), w, &vReader{b: in}, nil)
+	vOutput("out", w.buf)
+	vOutputBool("err", err != nil)
+	vReach("end")
+}
